@@ -9,7 +9,7 @@ Streams, in this order:
   malformed     objects no ParamValue can hold, non-string enums, ints beyond 64 bits, non-finite floats, missing required
   numeric-spec / str-spec   the Coq numeric-string reader and str(Decimal) against CPython's decimal module (oracle)
 Values are handled here as exact data (ints, (sign, coefficient, exponent) triples, code-point lists); hdl21 is never imported."""
-import json, struct
+import json, struct, re
 from decimal import Decimal, InvalidOperation
 from . import core
 from .core import cz, cbool
@@ -185,6 +185,7 @@ def c_ires(o):
 
 # ------------------------------------------------------------------------------------------ value pool
 I63 = 2 ** 63
+BIGEXP = re.compile(r"[eE][+-]?\d{4,}")
 
 
 def gen_triple(r, maxdig=60, maxexp=40):
@@ -275,6 +276,8 @@ def gen_text(r):
     the implementation itself needs seconds for int(Decimal('1e1555267'))"""
     while True:
         s = gen_text_raw(r)
+        if BIGEXP.search(uncp(s).replace("_", "")):
+            continue        # an exponent field of 4+ digits: beyond the model's stated domain (libmpdec's Emax/Emin limits are not modelled)
         t = cpython_numeric(s)
         if t is None or (abs(t[2]) <= 500 and len(str(t[1])) <= 120):
             return s
